@@ -1,11 +1,12 @@
 """C17 - tracing never changes a solution and records it faithfully."""
 from contracts.c02_solve_t import SolveTContract
+from contracts.c11_copy import TraceInit
 from contracts.c17_c18_mixins import CONTRACTS_TRACE, TRACER_CONTRACTS
 from props.mixins_bounded import TracerTwin
 from verif.spec import PropertySpec
 
 PROPERTY = PropertySpec(
-    id='C17', contracts=list(TRACER_CONTRACTS) + list(CONTRACTS_TRACE), bounded=[TracerTwin()], level='other',
+    id='C17', contracts=list(TRACER_CONTRACTS) + list(CONTRACTS_TRACE) + [TraceInit()], bounded=[TracerTwin()], level='other',
     explanation='The four TracerMixin wrappers are executed symbolically from source for every shape of `trace` (None/False/True/name/list/empty list) and '
                 'reset: a snapshot is taken only when `trace` is truthy, with the documented label and on the documented side of the parent call; the '
                 'parent is called exactly once with the same arguments and its result/exception passes through. With the hook-order clauses of '
